@@ -966,6 +966,16 @@ func (s *Session) runOutputOncePacket() {
 // them in the receive buffer and receive queue.
 func (s *Session) input(seg *segment) error {
 	protocol := seg.Protocol()
+	if seg.block != nil && s.block.Load() != nil {
+		prevUserName := (*s.block.Load()).BlockContext().UserName
+		nextUserName := seg.block.BlockContext().UserName
+		if prevUserName != "" && nextUserName != "" && prevUserName != nextUserName {
+			// The segment is authenticated by a different user.
+			// Drop it before it can change or fail the session.
+			log.Debugf("%v dropped %v because cipher block user name %q is different from %q", s, seg, nextUserName, prevUserName)
+			return nil
+		}
+	}
 	if s.isClient {
 		if protocol != openSessionResponse && protocol != dataServerToClient && protocol != dataServerToClientLowEntropy && protocol != ackServerToClient && protocol != closeSessionRequest && protocol != closeSessionResponse {
 			return stderror.ErrInvalidArgument
